@@ -25,7 +25,15 @@ fn reference_cover<'a>(node: LinkedNode<'a>, a: usize, b: usize) -> Option<Linke
         }
     }
     let r = node.range();
-    if r.start <= a && r.end >= b && is_target(&node) {
+    // units since the fix commits in partial.rs: the root Markup, and expressions/patterns other than the callee of a call
+    let unit = if node.kind() == K::Markup {
+        node.parent().is_none()
+    } else {
+        is_target(&node)
+            && !(node.index() == 0 && node.parent().map(|p| p.kind() == K::FuncCall).unwrap_or(false))
+            && !matches!(node.kind(), K::Space | K::Parbreak)
+    };
+    if r.start <= a && r.end >= b && unit {
         Some(node)
     } else {
         None
